@@ -657,6 +657,57 @@ func (a *anchors) liveTables(r *report.Report) {
 			continue
 		}
 		wcalls, _ := callsTo(f, a.writePSIData)
+		// a helper that serialises and packetises what it is handed: every return of it that can succeed is dominated by
+		// writePSIData(…, <its parameter>) and by writePacket. A call of it stands for both calls, on the argument passed.
+		wp0 := p.Func("writePacket")
+		var helperCalls []*ssa.Call
+		helperData := map[*ssa.Call]ssa.Value{}
+		for _, ci := range ssau.Calls(f) {
+			c, isCall := ci.(*ssa.Call)
+			if !isCall {
+				continue
+			}
+			h := c.Call.StaticCallee()
+			if h == nil || h.Pkg != f.Pkg || len(h.Blocks) == 0 || h == a.writePSIData || h == wp0 || wp0 == nil {
+				continue
+			}
+			hw, _ := callsTo(h, a.writePSIData)
+			hp, _ := callsTo(h, wp0)
+			k := -1
+			for _, w := range hw {
+				for i, prm := range h.Params {
+					if len(w.Call.Args) == 2 && w.Call.Args[1] == ssa.Value(prm) {
+						k = i
+					}
+				}
+			}
+			if k < 0 || len(hp) == 0 || k >= len(c.Call.Args) {
+				continue
+			}
+			good, nret := true, 0
+			for _, ret := range ssau.Returns(h) {
+				ei := ssau.ErrorResultIndex(h.Signature)
+				if ei >= 0 && ssau.ProvablyNonNilError(ret.Results[ei], ret.Block()) {
+					continue
+				}
+				nret++
+				dom := func(cs []*ssa.Call) bool {
+					for _, x := range cs {
+						if (x.Block() == ret.Block() && ssau.InstrBefore(x, ret)) || (x.Block() != ret.Block() && x.Block().Dominates(ret.Block())) {
+							return true
+						}
+					}
+					return false
+				}
+				if !dom(hw) || !dom(hp) {
+					good = false
+				}
+			}
+			if good && nret > 0 {
+				helperCalls = append(helperCalls, c)
+				helperData[c] = c.Call.Args[k]
+			}
+		}
 		for _, st := range stores {
 			ok, desc := in.okVal(f, st.Val)
 			pos := instrPos(p, st)
@@ -668,6 +719,11 @@ func (a *anchors) liveTables(r *report.Report) {
 			linked := false
 			for _, wc := range wcalls {
 				if len(wc.Call.Args) == 2 && containsAlloc(f, wc.Call.Args[1], AddrPath(st.Addr).Root) {
+					linked = true
+				}
+			}
+			for _, hc := range helperCalls {
+				if containsAlloc(f, helperData[hc], AddrPath(st.Addr).Root) {
 					linked = true
 				}
 			}
@@ -703,6 +759,9 @@ func (a *anchors) liveTables(r *report.Report) {
 				continue
 			}
 			nsucc++
+			if domAny(helperCalls, ret) {
+				continue // serialised and packetised by the helper
+			}
 			if !domAny(wcalls, ret) {
 				bad = append(bad, "the return at "+instrPos(p, ret)+" can succeed without writePSIData having serialised the live table")
 			} else if !domAny(pcalls, ret) {
@@ -810,6 +869,12 @@ func (a *anchors) mustFlag(r *report.Report) {
 			calls, _ := callsTo(f, mut)
 			for _, c := range calls {
 				lp, ok := LoadPath(c.Call.Args[0])
+				if st := ssau.StoredInField(c.Call.Args[0], load.RootPath, "Muxer", "pm"); st != nil {
+					// the map is filled before it is put into the Muxer literal: the mutation is one of that muxer's pm
+					nPM++
+					a.checkFlagged(r, f, c, st.Addr.(*ssa.FieldAddr).X, a.fPmUpdated, "pm."+mut.Name())
+					continue
+				}
 				if !ok || lp.Last() != a.fPm {
 					continue // a programMap that is not a Muxer's (the demuxer has its own)
 				}
@@ -1345,7 +1410,7 @@ func (a *anchors) patMapsProgram(r *report.Report) {
 	good := 0
 	var seenArgs []string
 	for _, c := range calls {
-		if lp, ok := LoadPath(c.Call.Args[0]); !ok || lp.Last() != a.fPm {
+		if lp, ok := LoadPath(c.Call.Args[0]); (!ok || lp.Last() != a.fPm) && ssau.StoredInField(c.Call.Args[0], load.RootPath, "Muxer", "pm") == nil {
 			continue
 		}
 		x, okx := ssau.ConstInt(c.Call.Args[1])
